@@ -576,6 +576,38 @@ func c10b(c *Ctx) {
 		}
 	}
 	pos := c.W.FuncPos(fn)
+	// second accepted shape: the whole line is built as one string and returned, once with and
+	// once without arguments
+	whole := len(ws) > 0
+	for _, w := range ws {
+		if w.method != "Return" {
+			whole = false
+		}
+	}
+	if whole {
+		var bare, full dnf
+		nBare, nFull, nOther := 0, 0, 0
+		for _, w := range ws {
+			switch {
+			case w.format == "\t%s\n" && len(w.argT) == 1 && w.argT[0] == "$0.Name.Value":
+				nBare++
+				bare = orDNF(bare, w.cond)
+			case w.format == "\t%s %s\n" && len(w.argT) == 2 && w.argT[0] == "$0.Name.Value" && w.argT[1] == `strings.Join($0.Args,", ")`:
+				nFull++
+				full = orDNF(full, w.cond)
+			default:
+				nOther++
+			}
+		}
+		has := "(0 < builtin:len($0.Args))"
+		c.Check(nBare > 0 && nOther == 0, "render/name", pos, "TAB + command name", "the command line does not start with TAB + Name.Value from a constant format")
+		c.Check(nFull > 0 && nOther == 0 && dnfEquiv(full, mkDNF([]string{"+" + has})) && dnfEquiv(bare, mkDNF([]string{"-" + has})), "render/args", pos, "SPACE + arguments joined by ', ' exactly when there are arguments", "arguments are not rendered as \" \" + strings.Join(Args, \", \") through a constant format exactly when len(Args) > 0")
+		c.Check(nOther == 0, "render/newline", pos, "line ends with NEWLINE", "a returned line does not have the form TAB name [SPACE args] NEWLINE")
+		c.OK("render/order", pos, "name, arguments, newline in that order (one template)")
+		c.Check(nOther == 0, "render/nothing-else", pos, "nothing else is rendered", fmt.Sprintf("%d other line forms returned by renderCommandStatement", nOther))
+		c10bFormats(c)
+		return
+	}
 	c.Check(name != nil && len(name.argT) == 1 && name.argT[0] == "$0.Name.Value", "render/name", pos, "TAB + command name", "the command line does not start with TAB + Name.Value from a constant format")
 	okArgs := args != nil && len(args.argT) == 1 && args.argT[0] == `strings.Join($0.Args,", ")`
 	if okArgs {
@@ -588,7 +620,11 @@ func c10b(c *Ctx) {
 		c.Check(instrDominates(name.call.(ssa.Instruction), args.call.(ssa.Instruction)) && !canReach(nl.call.(ssa.Instruction), name.call.(ssa.Instruction)) && canReach(args.call.(ssa.Instruction), nl.call.(ssa.Instruction)), "render/order", pos, "name, arguments, newline in that order", "name / arguments / newline are not written in that order")
 	}
 	c.Check(len(ws) == 3, "render/nothing-else", pos, "exactly three writes", fmt.Sprintf("%d writes in renderCommandStatement, expected 3", len(ws)))
-	// no data-dependent format strings anywhere in the emitter
+	c10bFormats(c)
+}
+
+// no data-dependent format strings anywhere in the emitter
+func c10bFormats(c *Ctx) {
 	n := 0
 	for _, f := range c.W.FuncsOf("emitter") {
 		if isTestFunc(c.W, f) {
